@@ -80,6 +80,27 @@ def excluded : List String := ["MessIputSimcall", "MessIgetSimcall"]
 checker-side constructor of that kind unpacks (SEM_WAIT included since the repair of `sem-wait-capacity-signedness`). -/
 theorem schemas_agree_partial : ∀ e ∈ appTable, ¬ e.observer ∈ excluded → agrees e = true := by decide
 
+/-- **End to end, every supported simcall kind**: for every entry of the generated table outside the message-queue
+observers (the registered finding `messqueue-observers-serialised-as-comm`), every value list the application can pack
+with that observer's `serialize`, the checker-side constructor of the entry's kind exists, consumes exactly the bytes
+sent (nothing left, no blocking `receive`) and obtains exactly the packed values.  `schemas_agree_partial` (finite
+table) + `agree_decodes` (generic, all values). -/
+theorem supported_transition_decodes (e : Entry) (he : e ∈ appTable) (hx : ¬ e.observer ∈ excluded)
+    (vs : List FVal) (bs : List Nat) (h : encode e.app vs = some bs) :
+    ∃ c, checkerSchema e.kind = some c ∧ e.dies = false ∧ decode c bs = some (vs, []) := by
+  have ha := schemas_agree_partial e he hx
+  unfold agrees at ha
+  cases hc : checkerSchema e.kind with
+  | none => simp [hc] at ha
+  | some c =>
+    simp only [hc, Bool.and_eq_true, Bool.not_eq_true'] at ha
+    exact ⟨c, rfl, ha.1, agree_decodes e.app c ha.2 vs bs h⟩
+
+-- non-vacuity: a MUTEX_WAIT message (mutex 7, owner 3) is an entry of the table, outside the exclusion, and encodes
+example : app_MutexAcquisitionObserver_MUTEX_WAIT ∈ appTable := by simp [appTable]
+example : ¬ app_MutexAcquisitionObserver_MUTEX_WAIT.observer ∈ excluded ∧
+    (encode app_MutexAcquisitionObserver_MUTEX_WAIT.app [.p (.nat 7), .p (.int 3)]).isSome = true := by decide
+
 /-- D14: `MessIputSimcall::serialize` packs two pointers under the COMM_ASYNC_SEND tag, `CommSendTransition` unpacks
 `unsigned, unsigned, int, std::string` -/
 theorem schemas_agree_counterexample_mess_put : agrees app_MessIputSimcall_COMM_ASYNC_SEND = false := by decide
